@@ -14,6 +14,9 @@ pub use inner::dbxxx::{DbXxxIntoIter, DbXxxIter, DbXxxIterMut, DbXxxKeys, DbXxxV
 use inner::semtype::*;
 use inner::FileDbInner;
 
+#[cfg(feature = "verif_hooks")]
+pub(crate) use inner::verif_probe;
+
 /// File Database.
 #[derive(Debug, Clone)]
 pub struct FileDb(Rc<RefCell<FileDbInner>>);
